@@ -32,6 +32,12 @@ class CaseWalker:
         if p is not None and p[2] is None and p[1] in case:
             return case[p[1]]
         k = e.get('k')
+        if k == 'ref' and e.get('dk') == 'parm' and ('$' + e['name']) in case:
+            return case['$' + e['name']]
+        if k == 'call' and e.get('name') == 'GetName' and e.get('obj') is not None:
+            o = unwrap_casts(e['obj'])
+            if isinstance(o, dict) and o.get('k') == 'ref' and o.get('dk') == 'parm' and ('$' + o['name'] + '.name') in case:
+                return case['$' + o['name'] + '.name']
         if k == 'un' and e.get('op') == '!':
             v = self.value(e.get('e'), case)
             if v is None:
@@ -62,6 +68,28 @@ class CaseWalker:
                         return 0 if op == '==' else 1
                     return None
                 return int((l == r) == (op == '=='))
+        if k == 'call' and e.get('fn') in self.funcs and self.funcs[e['fn']].get('cls') == self.cls and getattr(self, '_vdepth', 0) < 3:
+            callee = self.funcs[e['fn']]
+            self._vdepth = getattr(self, '_vdepth', 0) + 1
+            try:
+                sub = CaseWalker(self.F, self.cls, self.max_paths)
+                sub._vdepth = self._vdepth
+                ps = sub.paths(callee, self._bind(callee, e, case), 1)
+            finally:
+                self._vdepth -= 1
+            rets = set()
+            for pth in ps:
+                last = pth[-1]
+                if last[0] == 'return' and last[1] is not None:
+                    try:
+                        rets.add(int(last[1]))
+                    except ValueError:
+                        rets.add(None)
+                else:
+                    rets.add(None)
+            if len(rets) == 1 and None not in rets:
+                return rets.pop()
+            return None
         if k == 'call' and e.get('name') == 'empty' and e.get('obj') is not None:
             p = field_path(e['obj'])
             if p and p[1] + '.empty' in case:
@@ -116,8 +144,63 @@ class CaseWalker:
                     if 'init' in v:
                         e2 = e2 + self._expr_events(v['init'], func, r, case, depth)
                 nxt(case, e2)
-            elif k in ('for', 'while', 'do', 'rangefor', 'switch'):
-                # loops / switches are summarised as opaque effects of their body
+            elif k == 'switch' and self.value(st.get('cond'), case) is not None and self.value(st.get('cond'), case) != NZ:
+                from .sib import switch_arms
+                v = self.value(st.get('cond'), case)
+                arms = switch_arms(st)
+                start = None
+                for ai, a in enumerate(arms):
+                    if v in a['labels']:
+                        start = ai
+                if start is None:
+                    for ai, a in enumerate(arms):
+                        if a['default']:
+                            start = ai
+                if start is None:
+                    nxt(case, ev)
+                else:
+                    seq = []
+                    ai = start
+                    while ai < len(arms):
+                        seq += arms[ai]['stmts']
+                        if not arms[ai]['fallthrough']:
+                            break
+                        ai += 1
+                    # `break` leaves the switch: run the arm up to its break, then continue after the switch
+                    flat = []
+                    for s_ in seq:
+                        if s_.get('k') == 'break':
+                            break
+                        flat.append(s_)
+                    run([self._strip_break(x) for x in flat], 0, case, ev, nxt)
+            elif k == 'switch':
+                # undecided switch: fork over its arms
+                from .sib import switch_arms
+                arms = switch_arms(st)
+                evc = ev + self._expr_events(st.get('cond'), func, r, case, depth)
+                has_default = any(a['default'] for a in arms)
+                for ai, a in enumerate(arms):
+                    seq = []
+                    aj = ai
+                    while aj < len(arms):
+                        seq += arms[aj]['stmts']
+                        if not arms[aj]['fallthrough']:
+                            break
+                        aj += 1
+                    flat = []
+                    for s_ in seq:
+                        if s_.get('k') == 'break':
+                            break
+                        flat.append(s_)
+                    c2 = dict(case)
+                    cp = field_path(unwrap_casts(st.get('cond')))
+                    if cp is not None and cp[2] is None and len(a['labels']) == 1 and not a['default']:
+                        c2[cp[1]] = list(a['labels'])[0]
+                    run([self._strip_break(x) for x in flat], 0, c2, evc + [('arm', tuple(sorted(a['labels'], key=str)))], nxt)
+                if not has_default:
+                    nxt(case, evc)
+            elif k in ('for', 'while', 'do', 'rangefor'):
+                # loops are summarised as opaque effects of their body
                 e2 = ev + [('loop', k)] + self._expr_events(st, func, r, case, depth)
                 nxt(case, e2)
             else:
@@ -129,6 +212,32 @@ class CaseWalker:
             out.append(ev + [('return', None)])
         run(func['body'].get('body', []), 0, dict(case), [], done)
         return out
+
+    def _bind(self, callee, call, case):
+        """case for a callee: state facts carry over, parameters are bound to the known argument values"""
+        sub_case = {k2: v2 for k2, v2 in case.items() if not k2.startswith('$')}
+        args = call.get('args', [])
+        for pi, pr in enumerate(callee.get('params', [])):
+            if pi < len(args):
+                av = self.value(args[pi], case)
+                if av is not None:
+                    sub_case['$' + pr['name']] = av
+                a = unwrap_casts(args[pi])
+                while isinstance(a, dict) and a.get('k') == 'construct' and a.get('copymove') and a.get('args'):
+                    a = unwrap_casts(a['args'][0])
+                if isinstance(a, dict) and a.get('k') == 'ref' and a.get('dk') == 'parm' and ('$' + a['name'] + '.name') in case:
+                    sub_case['$' + pr['name'] + '.name'] = case['$' + a['name'] + '.name']
+            elif 'default' in pr:
+                dv = const_value(pr['default'])
+                if dv is not None:
+                    sub_case['$' + pr['name']] = dv
+        return sub_case
+
+    @staticmethod
+    def _strip_break(st):
+        if st.get('k') == 'block' and st.get('body') and st['body'][-1].get('k') == 'break':
+            return {'k': 'block', 'l': st.get('l'), 'body': st['body'][:-1]}
+        return st
 
     def _assume(self, cond, b, case):
         c = unwrap_casts(cond)
@@ -188,8 +297,9 @@ class CaseWalker:
                 callee = self.funcs.get(fn)
                 obj = unwrap_casts(n.get('obj')) if n.get('obj') is not None else None
                 same = callee is not None and callee.get('cls') == self.cls and (obj is None or obj.get('k') == 'this')
-                if same and depth < 3:
-                    sub = CaseWalker(self.F, self.cls, self.max_paths).paths(callee, case, depth + 1)
+                if same and depth < 4:
+                    sub_case = self._bind(callee, n, case)
+                    sub = CaseWalker(self.F, self.cls, self.max_paths).paths(callee, sub_case, depth + 1)
                     # merge: if all paths agree use them, else mark as opaque call
                     flat = [tuple(x for x in p if x[0] not in ('return', 'cond')) for p in sub]
                     if len(set(flat)) == 1:
